@@ -310,4 +310,54 @@ Fixpoint argmin_from (best : F) (bi i : nat) (s : seq F) : nat :=
   else bi.
 Definition argmin (s : seq F) : nat := if s is x :: r then argmin_from x 0 1 r else 0.
 
+
+(* _postprocess_lanczos_root_inv_decomp lines 198-221.  inv_roots: one n x k matrix per (probe, batch member);
+   test_vectors: one n x t matrix per batch member; linear_op: one n x n matrix per batch member (linear_op.matmul
+   is modelled by its meaning; the permute / view pairs of lines 205-213 only move the probe index next to the
+   columns and back: index maps).  Residuals of one (probe, batch member): the 2-norm of every column of
+   A (R (R^T V)) - V. *)
+Definition post_resid_member (n k t : nat) (Ab R V : mat) : seq F :=
+  let W := mtab k t (fun l j => sumn_ (fun x => amul A (mget R x l) (mget V x j)) n) in   (* 202: inv_roots.mT.matmul(test_vectors) *)
+  let S := mmul n k t R W in                                                                (* 202: inv_roots.matmul(...) *)
+  let M := mmul n n t Ab S in                                                               (* 210: linear_op.matmul(solves) *)
+  mkseq (fun j => asqrt A (sumn_ (fun i => let d := asub A (mget M i j) (mget V i j) in amul A d d) n)) t.   (* 216 *)
+
+(* 217: residuals.view(residuals.size(0), -1).sum(-1): one number per probe (sum over batch members and columns) *)
+Definition post_residuals (n k t : nat) (As : seq mat) (Rs : seq (seq mat)) (Vs : seq mat) : seq F :=
+  map (fun Rp =>
+         foldl (aadd A) (a0 A)
+               (flatten (mkseq (fun b => post_resid_member n k t (nth [::] As b) (nth [::] Rp b) (nth [::] Vs b))
+                               (size As)))) Rs.
+
+(* 220-221: the index of the best probe and its inverse roots *)
+Definition postprocess (n k t : nat) (As : seq mat) (Rs : seq (seq mat)) (Vs : seq mat) : nat * seq mat :=
+  let b := argmin (post_residuals n k t As Rs Vs) in (b, nth [::] Rs b).
+
+(* ---------------------------------------------------------------------------------------- *)
+(* Shapes through RootDecomposition.forward (_root_decomposition.py lines 58-64 and 88-97) and
+   Diagonalization.forward (_diagonalization.py lines 40-45 and 58-61).  [qshape] is the shape of the q_mat that
+   lanczos_tridiag returned: ( [nprobe,] *batch, n, m ) -- the probe dimension is present iff nprobe > 1.
+   ctx.batch_shape is never None on the operator path (it is linear_op.batch_shape): that branch is not modelled. *)
+Definition squeeze0 (s : seq nat) : seq nat :=                                     (* tensor.squeeze(0) *)
+  if s is x :: r then (if x == 1 then r else s) else s.
+
+Definition root_forward_shape (lead : seq nat) (n m : nat) : seq nat :=
+  (* q_mat: lead ++ [n; m], t_mat: lead ++ [m; m] as returned by lanczos_tridiag *)
+  (* 61: t_mat.ndimension() == 3 ("if we only used one probe vector"): unsqueeze(0) of both *)
+  let lead1 := if size (lead ++ [:: m; m]) == 3 then 1 :: lead else lead in
+  let n_probes := head 0 (lead1 ++ [:: m; m]) in                                   (* 64: t_mat.size(0) *)
+  (* 73-83: matmul with the eigenvectors, scaling by the root eigenvalues: shape of q_mat unchanged *)
+  if n_probes == 1 then squeeze0 (lead1 ++ [:: n; m]) else lead1 ++ [:: n; m].     (* 93-94 *)
+
+Definition diag_forward_shape (lead : seq nat) (n m : nat) : seq nat * seq nat :=
+  let lead1 := if size (lead ++ [:: m; m]) == 3 then 1 :: lead else lead in        (* 43-45 *)
+  (squeeze0 (lead1 ++ [:: m]), squeeze0 (lead1 ++ [:: n; m])).                      (* 61, 60: eigenvalues / q_mat .squeeze(0) *)
+
+(* _postprocess_lanczos_root_inv_decomp line 221: inv_roots[best_solve_index] has shape ( *batch, n, k ); .squeeze(0) *)
+Definition postprocess_shape (batch : seq nat) (n k : nat) : seq nat := squeeze0 (batch ++ [:: n; k]).
+
+(* what lanczos_tridiag hands over (theorem C09_trim_shapes_any_arith) and what the operator is expected to return *)
+Definition lanczos_lead (nprobe : nat) (batch : seq nat) : seq nat :=
+  (if nprobe == 1 then [::] else [:: nprobe]) ++ batch.
+
 End Model.
